@@ -638,6 +638,7 @@ func (r *Request) Reset() {
 	r.userAgent = ""
 	r.referer = ""
 	r.ctx = nil
+	r.client = nil
 	r.body = nil
 	r.timeout = 0
 	r.maxRedirects = 0
